@@ -17,3 +17,22 @@ package tcp
 //@   props C14
 //@   observe easyjsonD3b49167EncodeGithubComVByteCpuSxPkgScanTcp, BuildBytes
 //@   entry row enc: [call easyjsonD3b49167EncodeGithubComVByteCpuSxPkgScanTcp(bind_w, v) ; call BuildBytes(_, _) as (b)] when ret0 == b -> exit
+
+// ---------------------------------------------------------------------------------------------
+// C06 / C03: receive path. A record is emitted only when the layers decoded FROM THIS FRAME are exactly the
+// expected header chain (so the IPv4 and TCP structs read below were written from this frame) and the flag
+// predicate holds; every record field is read from those structs; at most one record per frame.
+//@ pred tcpchain(d []gopacket.LayerType) = (len(d) == 3 && d[0] == layers.LayerTypeEthernet && d[1] == layers.LayerTypeIPv4 && d[2] == layers.LayerTypeTCP)
+//@        || (len(d) == 2 && d[0] == layers.LayerTypeIPv4 && d[1] == layers.LayerTypeTCP)
+//@ func validPacket
+//@   props C06 C03
+//@   ensures ret <==> tcpchain(decoded)
+//@ func (*ScanMethod).ProcessPacketData
+//@   props C06 C03
+//@   observe DecodeLayers, pktFilter, pktFlags, String, Put
+//@   entry row undecodable: [call DecodeLayers(s.parser, data, _) as (e)] when e != nil && ret == e -> exit
+//@   entry row otherframe:  [call DecodeLayers(s.parser, data, _) as (e)] when e == nil && !tcpchain(s.rcvDecoded) && ret == nil -> exit
+//@   entry row filtered:    [call DecodeLayers(s.parser, data, _) as (e) ; call pktFilter(bind_t) as (ok)] when e == nil && tcpchain(s.rcvDecoded) && !ok && ret == nil -> exit
+//@   entry row record:      [call DecodeLayers(s.parser, data, _) as (e) ; call pktFilter(bind_t) as (ok) ; call String(s.rcvIP.SrcIP) as (ips) ; call pktFlags(bind_t2) as (fl) ; call Put(s.results, bind_x)]
+//@                             when e == nil && tcpchain(s.rcvDecoded) && ok && ret == nil && isptr(x, ScanResult) && fresh(asptr(x, ScanResult))
+//@                               && asptr(x, ScanResult).IP == ips && asptr(x, ScanResult).Port == s.rcvTCP.SrcPort && asptr(x, ScanResult).Flags == fl && asptr(x, ScanResult).ScanType == s.scanType -> exit
